@@ -354,7 +354,17 @@ META:
         elif output_format == "yaml":
             # Convert filtered AST to dictionary, then serialize as YAML
             data = _ast_to_dict(result.filtered_doc)
-            output = yaml.dump(data, allow_unicode=True, sort_keys=False, default_flow_style=False)
+            try:
+                output = yaml.dump(data, allow_unicode=True, sort_keys=False, default_flow_style=False)
+            except RecursionError as e:
+                # yaml.dump recurses several frames per nesting level: a document the reader accepts can
+                # still be too deep to serialise. Answer like a parse failure instead of raising.
+                return {
+                    "output": f"// Serialization error: {type(e).__name__}: document nests too deeply for YAML output\n{content}",
+                    "lossy": False,
+                    "fields_omitted": [],
+                    "validation_status": "UNVALIDATED",  # I5: Explicit bypass
+                }
             return {
                 "output": output,
                 "lossy": result.lossy,
